@@ -31,8 +31,13 @@ def run_tree_case(ctx):
         return
     basis = list(model.basis)
     kind = KINDS[int(rng.integers(0, len(KINDS)))]
+    shuffle = bool(rng.random() < 0.5)
+    if (ctx.idx // 8) % 3 == 1 and len(basis) >= 3:
+        # by case index, not by coin (a required class): the binary tree in model order has the first electronic set at a
+        # node with two children
+        kind, shuffle = "binary", False
     kw = {"max_sets": 1, "auto_virtual": False} if kind == "random" else {}
-    tree, tdesc = ctx.lib(trees.build_tree, kind, basis, rng, bool(rng.random() < 0.5), what="tree-constructor", promised=False, **kw)
+    tree, tdesc = ctx.lib(trees.build_tree, kind, basis, rng, shuffle, what="tree-constructor", promised=False, **kw)
     if any(len([b for b in node.basis_sets if not trees.is_dummy(b)]) > 1 for node in tree.node_list):
         # max_entangled_ex supports one physical set per node only (it asserts otherwise)
         kind = "linear"
